@@ -30,6 +30,7 @@ fn main() {
         Some("worker") => worker(&args[2..]),
         Some("replay") => replay(&args[2..]),
         Some("exec-case") => exec_case(&args[2..]),
+        Some("gen-corpus") => gen_corpus(&args[2..]),
         _ => {
             eprintln!("usage: vcheck run <PROP> [--tier quick|thorough] [--seed N]\n       vcheck replay <PROP> <file>");
             2
@@ -57,6 +58,7 @@ fn worker(args: &[String]) -> i32 {
     let wa = WorkerArgs { prop, thorough, seed, index, nworkers, cases, out: &out, known: &known };
     let acc = match engine.as_str() {
         "cache" => engines::worker_cache(&wa),
+        "corpus" => engines::worker_corpus(&wa, &root().join("corpus/cache")),
         "panic" => engines::worker_panic(&wa),
         "walks" => engines::worker_walks(&wa, Fate::Drop, 6, 3),
         "walks-forget" => engines::worker_walks(&wa, Fate::Forget, 6, 1),
@@ -72,6 +74,19 @@ fn worker(args: &[String]) -> i32 {
         return 2;
     }
     let _ = std::fs::remove_file(current_file(&out));
+    0
+}
+
+/// Writes byte-encoded generated cases (fuzz seeds) into a directory.
+fn gen_corpus(args: &[String]) -> i32 {
+    let dir = match args.first() { Some(d) => PathBuf::from(d), None => return 2 };
+    let n: u32 = args.get(1).and_then(|s| s.parse().ok()).unwrap_or(200);
+    let _ = std::fs::create_dir_all(&dir);
+    let cases = engines::sample_cases(n, 4242);
+    for (i, c) in cases.iter().enumerate() {
+        let _ = std::fs::write(dir.join(format!("seed-{:04}", i)), c.to_bytes());
+    }
+    println!("wrote {} seeds to {}", cases.len(), dir.display());
     0
 }
 
@@ -196,6 +211,21 @@ struct Job {
 }
 
 fn jobs_for(prop: &str, thorough: bool) -> Vec<Job> {
+    let mut jobs = jobs_for_inner(prop, thorough);
+    let cache_family = !matches!(prop, "C08" | "C09" | "C18");
+    if cache_family {
+        jobs.insert(0, Job { engine: "corpus", build: "", asan: false, workers: 1, cases: 0, timeout_s: 600 });
+        if thorough {
+            jobs.push(Job { engine: "fuzz_cache", build: "fuzz", asan: true, workers: 16, cases: 120_000, timeout_s: 3600 });
+        }
+    }
+    else if thorough && prop != "C18" {
+        jobs.push(Job { engine: "fuzz_memsize", build: "fuzz", asan: true, workers: 16, cases: 150_000, timeout_s: 3600 });
+    }
+    jobs
+}
+
+fn jobs_for_inner(prop: &str, thorough: bool) -> Vec<Job> {
     let t = thorough;
     let cache = |asan: bool, q: u32, th: u32| Job { engine: "cache", build: "", asan, workers: 16, cases: if t { th } else { q }, timeout_s: if t { 5400 } else { 900 } };
     match prop {
@@ -319,6 +349,126 @@ fn crashes(bin: &Path, asan: bool, prop: &str, file: &Path) -> bool {
     }
 }
 
+/// One libFuzzer campaign: `workers` independent processes with fixed work
+/// (-runs) and derived seeds, ASan build, oracle inside the target.
+fn run_fuzz_job(prop: &'static str, job: &Job, seed: u64, tmp: &Path, root: &Path, known: &[Known])
+        -> (Accum, Vec<String>, Vec<(String, String)>) {
+    let mut acc = Accum::default();
+    let mut incon = Vec::new();
+    let mut crashes = Vec::new();
+    let bin = root.join("fuzz/target/x86_64-unknown-linux-gnu/release").join(job.engine);
+    if !bin.exists() {
+        incon.push(format!("fuzz target {} is not built", bin.display()));
+        return (acc, incon, crashes);
+    }
+    let seeds = root.join("corpus").join(job.engine);
+    let work = tmp.join(format!("fuzz-{}", job.engine));
+    let art = work.join("art");
+    let _ = std::fs::create_dir_all(&art);
+    let stats = work.join("stats");
+    let mut children = Vec::new();
+    for i in 0..job.workers {
+        let cdir = work.join(format!("c{}", i));
+        let _ = std::fs::create_dir_all(&cdir);
+        let log = std::fs::File::create(work.join(format!("fuzz-{}.log", i))).ok();
+        let mut cmd = Command::new(&bin);
+        cmd.arg(&cdir);
+        if seeds.exists() { cmd.arg(&seeds); }
+        cmd.arg(format!("-runs={}", job.cases))
+            .arg(format!("-seed={}", (seed % 1_000_000_000) * 32 + i + 1))
+            .arg("-len_control=0").arg("-max_len=1024").arg("-detect_leaks=0")
+            .arg("-print_final_stats=1").arg("-timeout=120").arg("-rss_limit_mb=6000")
+            .arg(format!("-max_total_time={}", job.timeout_s))
+            .arg(format!("-artifact_prefix={}/w{}-", art.display(), i))
+            .env("VERIF_PROP", prop).env("VERIF_ROOT", root).env("VERIF_FUZZ_STATS", &stats)
+            .env("ASAN_OPTIONS", "detect_leaks=0:allocator_may_return_null=1:abort_on_error=0")
+            .current_dir(&work).stdout(Stdio::null());
+        match log { Some(f) => { cmd.stderr(Stdio::from(f)); }, None => { cmd.stderr(Stdio::null()); } }
+        match cmd.spawn() {
+            Ok(c) => children.push((i, c, Instant::now())),
+            Err(e) => incon.push(format!("cannot start fuzz worker: {}", e)),
+        }
+    }
+    for (i, mut c, started) in children {
+        loop {
+            match c.try_wait() {
+                Ok(Some(_)) => break,
+                Ok(None) => {
+                    if started.elapsed() > Duration::from_secs(job.timeout_s + 300) {
+                        let _ = c.kill();
+                        let _ = c.wait();
+                        incon.push(format!("fuzz worker {} timed out", i));
+                        break;
+                    }
+                    std::thread::sleep(Duration::from_millis(50));
+                },
+                Err(_) => break,
+            }
+        }
+    }
+    // executions from the logs, coverage classes from the targets' own counters
+    let mut execs = 0u64;
+    for i in 0..job.workers {
+        if let Ok(t) = std::fs::read_to_string(work.join(format!("fuzz-{}.log", i))) {
+            for l in t.lines() {
+                if let Some(n) = l.strip_prefix("stat::number_of_executed_units:") {
+                    execs += n.trim().parse::<u64>().unwrap_or(0);
+                }
+            }
+        }
+    }
+    if let Ok(rd) = std::fs::read_dir(&work) {
+        for e in rd.flatten() {
+            if e.file_name().to_string_lossy().starts_with("stats.") {
+                if let Some(v) = std::fs::read_to_string(e.path()).ok().and_then(|t| serde_json::from_str::<Value>(&t).ok()) {
+                    acc.merge(&Accum::from_json(&v));
+                }
+            }
+        }
+    }
+    acc.cases = acc.cases.max(execs);
+    acc.samples.truncate(2);
+    // artifacts: every saved crashing input becomes a replay file
+    if let Ok(rd) = std::fs::read_dir(&art) {
+        for e in rd.flatten() {
+            let name = e.file_name().to_string_lossy().to_string();
+            if !(name.contains("crash-") || name.contains("oom-") || name.contains("timeout-")) {
+                continue;
+            }
+            let bytes = std::fs::read(e.path()).unwrap_or_default();
+            if name.contains("timeout-") || name.contains("oom-") {
+                incon.push(format!("libFuzzer reported {} (not a verdict)", name));
+                continue;
+            }
+            if job.engine == "fuzz_cache" {
+                let case = Case::from_bytes(&bytes);
+                let out = run_case(&case, Some(prop), true);
+                match judge(&out.fails, prop, known) {
+                    Verdict::Violation(f) => acc.violations.push(Violation {
+                        replay_text: replay_text(prop, &case, Some(&f), &out.trace), msg: f.msg.clone(), sig: f.sig.clone() }),
+                    _ => {
+                        let text = case.to_text();
+                        if crash_relevant(prop, &text) {
+                            crashes.push((format!("# replay for property {}\n# found by libFuzzer under AddressSanitizer ({}); the failure does not show in the plain build\n{}", prop, name, text), "crash:fuzz_cache".into()));
+                        }
+                        else {
+                            *acc.foreign.entry("fuzz-crash".into()).or_insert(0) += 1;
+                        }
+                    },
+                }
+            }
+            else if bytes.len() >= 2 {
+                let menu = lruverif::shapes::menu();
+                let idx = (bytes[0] as usize | (bytes[1] as usize) << 8) % menu.len();
+                let text = engines::mem_case_text(&menu[idx].name(), &bytes[2..]);
+                acc.violations.push(Violation { replay_text: format!("# replay for property {}\n# found by libFuzzer ({})\n{}", prop, name, text),
+                    msg: format!("fuzz_memsize crash {}", name), sig: format!("fuzz:{}", menu[idx].name()) });
+            }
+        }
+    }
+    (acc, incon, crashes)
+}
+
 fn orchestrate(args: &[String]) -> i32 {
     let started = Instant::now();
     let prop = match args.first().and_then(|p| static_prop(p)) {
@@ -343,6 +493,16 @@ fn orchestrate(args: &[String]) -> i32 {
     let mut crash_violations: Vec<(String, String)> = Vec::new();
 
     for (jn, job) in jobs_for(prop, thorough).iter().enumerate() {
+        if job.build == "fuzz" {
+            let (acc, incon, crashes) = run_fuzz_job(prop, job, seed, &tmp, &root, &known);
+            per_engine.insert(format!("{}+libfuzzer+asan", job.engine), json!({
+                "workers": job.workers, "executions": acc.cases, "steps": acc.steps, "distinct_nontrivial": acc.nt.len(),
+            }));
+            total.merge(&acc);
+            inconclusive.extend(incon);
+            crash_violations.extend(crashes);
+            continue;
+        }
         let bin = bin_path(job.asan, job.build);
         if !bin.exists() {
             inconclusive.push(format!("binary {} missing (engine {}{})", bin.display(), job.engine, if job.asan { " under ASan" } else { "" }));
